@@ -218,6 +218,15 @@ func runC12(t *testing.T, c CompCase) *kit.Result {
 						settles++
 						checkFiles("settle")
 					case "compact", "crange", "sleep":
+						// FailIO 1-4: the disk refuses one operation (create, write, sync,
+						// rename) during this compaction: it may fail, it must not cost data
+						nd := fs.Node("n1")
+						failKind := -1
+						if op.FailIO > 0 {
+							failKind = []int{simos.OpCreate, simos.OpWrite, simos.OpSync, simos.OpRename}[(op.FailIO-1)%4]
+							nd.FailNext[failKind] = 1
+						}
+						fired0 := nd.Stats.ErrFired
 						switch op.K {
 						case "compact":
 							if err := e.TriggerCompaction(); err != nil {
@@ -229,6 +238,12 @@ func runC12(t *testing.T, c CompCase) *kit.Result {
 							}
 						default:
 							simrt.Sleep(time.Duration(op.D) * time.Millisecond)
+						}
+						if failKind >= 0 {
+							nd.FailNext[failKind] = 0
+							if nd.Stats.ErrFired != fired0 {
+								res.Fault("io_error_during_compaction_"+simos.OpNames[failKind], 1)
+							}
 						}
 						compactions++
 						if settled {
@@ -421,6 +436,14 @@ func genCompCase(r *kit.Rand, tier string) CompCase {
 			}
 		}
 	}
+	// the disk refuses one operation during some of the compactions
+	if r.Bool(0.4) {
+		for i := range c.Ops {
+			if k := c.Ops[i].K; (k == "compact" || k == "crange" || k == "sleep") && r.Bool(0.3) {
+				c.Ops[i].FailIO = r.Range(1, 4)
+			}
+		}
+	}
 	return c
 }
 
@@ -439,6 +462,6 @@ func TestC12(t *testing.T) {
 			return out
 		},
 		Strip: func(c CompCase) any { d := c; d.Sched = kit.Sched{}; return d },
-		Rule:  "programmes of 1-5 (thorough: 1-10) rounds: writes/overwrites/deletes/transactions spread over several flushes, then usually a settle point (double flush + retirement of all but the current log file: the table files alone hold the database), then 0-3 of {TriggerCompaction, CompactRange, virtual sleep long enough for the automatic worker, reopen, compaction with the process killed at a chosen I/O point}. At every settle point and after every compaction that follows one without intervening writes the newest-wins merged view of the table files (harness-side sstable readers; level 0 newest first, then deeper levels) must equal the reference map and every table must be sorted and duplicate-free; after every compaction and every reopen the engine's gets and scan must equal the reference map. non-trivial = >=1 settle, >=1 compaction op, >=3 write steps",
+		Rule:  "programmes of 1-5 (thorough: 1-10) rounds: writes/overwrites/deletes/transactions spread over several flushes, then usually a settle point (double flush + retirement of all but the current log file: the table files alone hold the database), then 0-3 of {TriggerCompaction, CompactRange, virtual sleep long enough for the automatic worker, reopen, compaction with the process killed at a chosen I/O point}. At every settle point and after every compaction that follows one without intervening writes the newest-wins merged view of the table files (harness-side sstable readers; level 0 newest first, then deeper levels) must equal the reference map and every table must be sorted and duplicate-free; after every compaction and every reopen the engine's gets and scan must equal the reference map. in 40% of the cases a third of the compaction steps run with one refused disk operation (create, write, sync or rename: the compaction may fail, content must not change); non-trivial = >=1 settle, >=1 compaction op, >=3 write steps",
 	})
 }
